@@ -3,6 +3,12 @@
 // Contracts for package datacodec, read by /verif's govc (see /verif/DESIGN.md). Comment-only.
 package datacodec
 
+import (
+	"math/big"
+
+	"github.com/datastax/go-cassandra-native-protocol/primitive"
+)
+
 // The size handed to an injector factory reaches reflect.MakeSlice / reflect.MakeMapWithSize.
 
 //@ func readCollection
@@ -124,6 +130,7 @@ package datacodec
 
 //@ funcs ^convertToInt(64|32|16|8)$
 //@   prop C13
+//@   nilable source
 //@   ensures ints: forallT T in ints :: typeis(source, T) ==> ((err == nil && !wasNil && Z(val) == Z(unbox(source, T))) || (err != nil && !InRange(val, Z(unbox(source, T)))))
 //@   ensures ptrs: forallT T in ints :: typeis(source, *T) ==> ite(isnil(unbox(source, *T)), wasNil && err == nil, (err == nil && !wasNil && Z(val) == Z(old(*unbox(source, *T)))) || (err != nil && !InRange(val, Z(old(*unbox(source, *T))))))
 //@   ensures str: typeis(source, string) ==> (err == nil ==> !wasNil && Z(val) == strnum(unbox(source, string)))
@@ -139,19 +146,22 @@ package datacodec
 
 //@ func float64ToFloat32
 //@   prop C13
-//@   ensures exact: err == nil ==> float64(result0) == val
+//@   ensures exact: err == nil ==> same(float64(result0), val)
+//@   ensures complete: err != nil ==> !(float64(float32(val)) == val)
 //@   assigns nothing
 
 //@ func convertToFloat32
 //@   prop C13
-//@   ensures f64: typeis(source, float64) && err == nil ==> !wasNil && float64(val) == unbox(source, float64)
+//@   nilable source
+//@   ensures f64: typeis(source, float64) && err == nil ==> !wasNil && same(float64(val), unbox(source, float64))
 //@   ensures f32: typeis(source, float32) ==> err == nil && !wasNil && same(val, unbox(source, float32))
-//@   ensures p64: typeis(source, *float64) ==> ite(isnil(unbox(source, *float64)), wasNil && err == nil, err == nil ==> !wasNil && float64(val) == old(*unbox(source, *float64)))
+//@   ensures p64: typeis(source, *float64) ==> ite(isnil(unbox(source, *float64)), wasNil && err == nil, err == nil ==> !wasNil && same(float64(val), old(*unbox(source, *float64))))
 //@   ensures p32: typeis(source, *float32) ==> ite(isnil(unbox(source, *float32)), wasNil && err == nil, err == nil && !wasNil && same(val, old(*unbox(source, *float32))))
 //@   ensures null: source == nil ==> wasNil && err == nil
 
 //@ func convertToFloat64
 //@   prop C13
+//@   nilable source
 //@   ensures f64: typeis(source, float64) ==> err == nil && !wasNil && same(val, unbox(source, float64))
 //@   ensures f32: typeis(source, float32) ==> err == nil && !wasNil && same(val, float64(unbox(source, float32)))
 //@   ensures p64: typeis(source, *float64) ==> ite(isnil(unbox(source, *float64)), wasNil && err == nil, err == nil && !wasNil && same(val, old(*unbox(source, *float64))))
@@ -166,13 +176,13 @@ package datacodec
 //@ func convertFromFloat64
 //@   prop C13
 //@   ensures p64: typeis(dest, *float64) && !isnil(unbox(dest, *float64)) ==> err == nil && same(*unbox(dest, *float64), ite(wasNull, float64(0), val))
-//@   ensures p32: typeis(dest, *float32) && !isnil(unbox(dest, *float32)) && err == nil ==> ite(wasNull, same(*unbox(dest, *float32), float32(0)), float64(*unbox(dest, *float32)) == val)
+//@   ensures p32: typeis(dest, *float32) && !isnil(unbox(dest, *float32)) ==> ite(wasNull, err == nil && same(*unbox(dest, *float32), float32(0)), (err == nil && same(float64(*unbox(dest, *float32)), val)) || (err != nil && !(float64(float32(val)) == val)))
 
 // Date, time and timestamp accept every integer representation by falling through to the integer dispatchers.
 
 //@ funcs ^convertTo(Int32Date|Int64Time|Int64Timestamp)$
 //@   prop C13
-//@   nilable location
+//@   nilable location, source
 //@   ensures ints: forallT T in ints :: typeis(source, T) ==> ((err == nil && !wasNil && Z(val) == Z(unbox(source, T))) || (err != nil && !InRange(val, Z(unbox(source, T)))))
 //@   ensures ptrs: forallT T in ints :: typeis(source, *T) ==> ite(isnil(unbox(source, *T)), wasNil && err == nil, (err == nil && !wasNil && Z(val) == Z(old(*unbox(source, *T)))) || (err != nil && !InRange(val, Z(old(*unbox(source, *T))))))
 
@@ -180,3 +190,202 @@ package datacodec
 //@   prop C13
 //@   nilable location
 //@   ensures ints: forallT T in ints :: typeis(dest, *T) && !isnil(unbox(dest, *T)) ==> ite(wasNull, err == nil && Z(*unbox(dest, *T)) == 0, (err == nil && Z(*unbox(dest, *T)) == Z(val)) || (err != nil && !InRange(T, Z(val))))
+
+// ---- C12: fixed-width scalars are big-endian two's complement (IEEE 754 bits for floats, one byte for booleans) ---
+// be(b, n): the big-endian unsigned value of the first n bytes of b.
+
+//@ spec be8(b []byte) uint64 = uint64(b[0]) << 56 | uint64(b[1]) << 48 | uint64(b[2]) << 40 | uint64(b[3]) << 32 | uint64(b[4]) << 24 | uint64(b[5]) << 16 | uint64(b[6]) << 8 | uint64(b[7])
+//@ spec be4(b []byte) uint32 = uint32(b[0]) << 24 | uint32(b[1]) << 16 | uint32(b[2]) << 8 | uint32(b[3])
+//@ spec be2(b []byte) uint16 = uint16(b[0]) << 8 | uint16(b[1])
+
+//@ func writeInt64
+//@   prop C12
+//@   ensures format: len(dest) == 8 && be8(dest) == uint64(val) && fresh(dest)
+//@ func readInt64
+//@   prop C12, C14
+//@   ensures null: len(source) == 0 ==> wasNull && err == nil && val == 0
+//@   ensures format: len(source) == 8 ==> !wasNull && err == nil && uint64(val) == be8(source)
+//@   ensures refuse: len(source) != 0 && len(source) != 8 ==> err != nil
+
+//@ func writeInt32
+//@   prop C12
+//@   ensures format: len(dest) == 4 && be4(dest) == uint32(val) && fresh(dest)
+//@ func readInt32
+//@   prop C12, C14
+//@   ensures null: len(source) == 0 ==> wasNull && err == nil && val == 0
+//@   ensures format: len(source) == 4 ==> !wasNull && err == nil && uint32(val) == be4(source)
+//@   ensures refuse: len(source) != 0 && len(source) != 4 ==> err != nil
+
+//@ func writeInt16
+//@   prop C12
+//@   ensures format: len(dest) == 2 && be2(dest) == uint16(val) && fresh(dest)
+//@ func readInt16
+//@   prop C12, C14
+//@   ensures null: len(source) == 0 ==> wasNull && err == nil && val == 0
+//@   ensures format: len(source) == 2 ==> !wasNull && err == nil && uint16(val) == be2(source)
+//@   ensures refuse: len(source) != 0 && len(source) != 2 ==> err != nil
+
+//@ func writeInt8
+//@   prop C12
+//@   ensures format: len(dest) == 1 && dest[0] == uint8(val) && fresh(dest)
+//@ func readInt8
+//@   prop C12, C14
+//@   ensures null: len(source) == 0 ==> wasNull && err == nil && val == 0
+//@   ensures format: len(source) == 1 ==> !wasNull && err == nil && uint8(val) == source[0]
+//@   ensures refuse: len(source) != 0 && len(source) != 1 ==> err != nil
+
+//@ func writeBool
+//@   prop C12
+//@   ensures format: len(result) == 1 && result[0] == ite(val, uint8(1), uint8(0)) && fresh(result)
+//@ func readBool
+//@   prop C12, C14
+//@   ensures null: len(source) == 0 ==> wasNull && err == nil && !val
+//@   ensures format: len(source) == 1 ==> !wasNull && err == nil && val == (source[0] != 0)
+//@   ensures refuse: len(source) != 0 && len(source) != 1 ==> err != nil
+
+// ---- C11 / C14: round trip and NULL handling of the integer codecs, for every accepted Go integer representation ---
+
+func lemmaBigintRoundTrip(c *bigintCodec, src interface{}, dst interface{}, version primitive.ProtocolVersion) (wasNull bool, e1 error, e2 error) {
+	var b []byte
+	if b, e1 = c.Encode(src, version); e1 != nil {
+		return
+	}
+	wasNull, e2 = c.Decode(b, dst, version)
+	return
+}
+
+func lemmaIntRoundTrip(c *intCodec, src interface{}, dst interface{}, version primitive.ProtocolVersion) (wasNull bool, e1 error, e2 error) {
+	var b []byte
+	if b, e1 = c.Encode(src, version); e1 != nil {
+		return
+	}
+	wasNull, e2 = c.Decode(b, dst, version)
+	return
+}
+
+func lemmaSmallintRoundTrip(c *smallintCodec, src interface{}, dst interface{}, version primitive.ProtocolVersion) (wasNull bool, e1 error, e2 error) {
+	var b []byte
+	if b, e1 = c.Encode(src, version); e1 != nil {
+		return
+	}
+	wasNull, e2 = c.Decode(b, dst, version)
+	return
+}
+
+func lemmaTinyintRoundTrip(c *tinyintCodec, src interface{}, dst interface{}, version primitive.ProtocolVersion) (wasNull bool, e1 error, e2 error) {
+	var b []byte
+	if b, e1 = c.Encode(src, version); e1 != nil {
+		return
+	}
+	wasNull, e2 = c.Decode(b, dst, version)
+	return
+}
+
+// Encoding a Go integer of type T and decoding into a *T gives back the same number; encoding nil gives a NULL that
+// decodes as wasNull with the destination zeroed.
+//@ funcs ^lemma(Bigint|Int|Smallint|Tinyint)RoundTrip$
+//@   prop C11, C14
+//@   nilable src
+//@   ensures same: forallT T in ints :: typeis(src, T) && typeis(dst, *T) && !isnil(unbox(dst, *T)) && e1 == nil ==> e2 == nil && !wasNull && *unbox(dst, *T) == unbox(src, T)
+//@   ensures null: forallT T in ints :: src == nil && typeis(dst, *T) && !isnil(unbox(dst, *T)) ==> e1 == nil && e2 == nil && wasNull && Z(*unbox(dst, *T)) == 0
+
+//@ func writeFloat32
+//@   prop C12
+//@   ensures format: len(dest) == 4 && be4(dest) == f32bits(val) && fresh(dest)
+//@ func readFloat32
+//@   prop C12, C14
+//@   ensures null: len(source) == 0 ==> wasNull && err == nil && same(val, float32(0))
+//@   ensures format: len(source) == 4 ==> !wasNull && err == nil && same(val, f32frombits(be4(source)))
+//@   ensures refuse: len(source) != 0 && len(source) != 4 ==> err != nil
+//@ func writeFloat64
+//@   prop C12
+//@   ensures format: len(dest) == 8 && be8(dest) == f64bits(val) && fresh(dest)
+//@ func readFloat64
+//@   prop C12, C14
+//@   ensures null: len(source) == 0 ==> wasNull && err == nil && same(val, float64(0))
+//@   ensures format: len(source) == 8 ==> !wasNull && err == nil && same(val, f64frombits(be8(source)))
+//@   ensures refuse: len(source) != 0 && len(source) != 8 ==> err != nil
+
+func lemmaFloatRoundTrip(c *floatCodec, src interface{}, dst interface{}, version primitive.ProtocolVersion) (wasNull bool, e1 error, e2 error) {
+	var b []byte
+	if b, e1 = c.Encode(src, version); e1 != nil {
+		return
+	}
+	wasNull, e2 = c.Decode(b, dst, version)
+	return
+}
+
+func lemmaDoubleRoundTrip(c *doubleCodec, src interface{}, dst interface{}, version primitive.ProtocolVersion) (wasNull bool, e1 error, e2 error) {
+	var b []byte
+	if b, e1 = c.Encode(src, version); e1 != nil {
+		return
+	}
+	wasNull, e2 = c.Decode(b, dst, version)
+	return
+}
+
+// (a float32 NaN encoded as double cannot be decoded back into a *float32: the narrowing check rejects every NaN; NaN
+// is not equal to itself, so the round-trip statement excludes it)
+//@ funcs ^lemma(Float|Double)RoundTrip$
+//@   prop C11, C14
+//@   nilable src
+//@   ensures same: forallT T in floats :: typeis(src, T) && typeis(dst, *T) && !isnil(unbox(dst, *T)) && e1 == nil && !isnan(unbox(src, T)) ==> e2 == nil && !wasNull && same(*unbox(dst, *T), unbox(src, T))
+//@   ensures null: forallT T in floats :: src == nil && typeis(dst, *T) && !isnil(unbox(dst, *T)) ==> e1 == nil && e2 == nil && wasNull && same(*unbox(dst, *T), T(0))
+
+func lemmaBooleanRoundTrip(c *booleanCodec, src interface{}, dst interface{}, version primitive.ProtocolVersion) (wasNull bool, e1 error, e2 error) {
+	var b []byte
+	if b, e1 = c.Encode(src, version); e1 != nil {
+		return
+	}
+	wasNull, e2 = c.Decode(b, dst, version)
+	return
+}
+
+// booleans round-trip as bool, and through every integer representation as 0 / 1 (non-zero encodes as true)
+//@ func lemmaBooleanRoundTrip
+//@   prop C11, C14
+//@   nilable src
+//@   ensures bool: typeis(src, bool) && typeis(dst, *bool) && !isnil(unbox(dst, *bool)) ==> e1 == nil && e2 == nil && !wasNull && *unbox(dst, *bool) == unbox(src, bool)
+//@   ensures ints: forallT T in ints :: typeis(src, T) && typeis(dst, *T) && !isnil(unbox(dst, *T)) && e1 == nil ==> e2 == nil && !wasNull && Z(*unbox(dst, *T)) == ite(Z(unbox(src, T)) == 0, 0, 1)
+//@   ensures null: src == nil && typeis(dst, *bool) && !isnil(unbox(dst, *bool)) ==> e1 == nil && e2 == nil && wasNull && !*unbox(dst, *bool)
+
+// ---- varint: minimal two's-complement big-endian (the encoding of Java's BigInteger.toByteArray()) ---------------
+// twoswin(z): that byte string for the integer z; twosval(w): the integer a byte string denotes. The two clauses on
+// writeBigInt / readBigInt are ASSUMED here (arbitrary-precision byte arithmetic is outside the solvers' reach) and
+// backed by the bounded stand-in /verif/bounded/varint_bounded_test.go; what is PROVED is that the codec uses them:
+// the varint codec's output is exactly writeBigInt's, and decoding an encoded value gives the value back.
+
+//@ func writeBigInt
+//@   prop C12
+//@   nilable n
+//@   assigns nothing
+//@   assumes twos: n != nil ==> !isnil(result) && same(win(result), twoswin(bigval(n)))
+//@   assumes null: n == nil ==> isnil(result)
+//@ func readBigInt
+//@   prop C12
+//@   assigns nothing
+//@   assumes twos: len(source) > 0 ==> val != nil && fresh(val) && bigval(val) == twosval(win(source))
+//@   assumes null: len(source) == 0 ==> val == nil
+
+func lemmaVarintCanonical(c *varintCodec, n *big.Int, version primitive.ProtocolVersion) ([]byte, error) {
+	return c.Encode(n, version)
+}
+
+//@ func lemmaVarintCanonical
+//@   prop C12
+//@   requires value: n != nil
+//@   ensures format: result1 == nil ==> same(win(result0), twoswin(bigval(n)))
+
+func lemmaVarintRoundTrip(c *varintCodec, n *big.Int, dst *big.Int, version primitive.ProtocolVersion) (wasNull bool, e1 error, e2 error) {
+	var b []byte
+	if b, e1 = c.Encode(n, version); e1 != nil {
+		return
+	}
+	wasNull, e2 = c.Decode(b, dst, version)
+	return
+}
+
+//@ func lemmaVarintRoundTrip
+//@   prop C11
+//@   requires value: n != nil && n != dst
+//@   ensures same: e1 == nil ==> e2 == nil && !wasNull && bigval(dst) == bigval(n)
